@@ -87,9 +87,15 @@ func compiled(repo, dir string, seed uint64, tier string) error {
 		os.WriteFile(filepath.Join(mod, "go.sum"), sum, 0o644)
 	}
 	// ---- generate
-	units := make([]*cunit, n)
-	for i := 0; i < n; i++ {
-		d := genDoc(r, genCfg{forceGoNS: true, compileSafe: true, fullKinds: i < 4})
+	aimed := aimedDocs()
+	units := make([]*cunit, n+len(aimed))
+	for i := 0; i < n+len(aimed); i++ {
+		var d *Doc
+		if i < n {
+			d = genDoc(r, genCfg{forceGoNS: true, compileSafe: true, fullKinds: i < 4, oddNames: i%2 == 1})
+		} else {
+			d = aimed[i-n]
+		}
 		for _, f := range d.Files {
 			f.Path = fmt.Sprintf("u%d/%s", i, f.Path)
 		}
@@ -210,26 +216,45 @@ func compiled(repo, dir string, seed uint64, tier string) error {
 	drv := exec.Command(bin)
 	stdin, _ := drv.StdinPipe()
 	stdout, _ := drv.StdoutPipe()
-	drv.Stderr = os.Stderr
+	var stderrBuf strings.Builder
+	drv.Stderr = &stderrBuf
 	if err := drv.Start(); err != nil {
 		return err
 	}
 	rd := bufio.NewReaderSize(stdout, 1<<20)
+	var cur *cunit
 	ask := func(q string) []string {
 		io.WriteString(stdin, q+"\n")
 		ln, err := rd.ReadString('\n')
 		if err != nil {
-			panic(fmt.Errorf("driver died on %q: %v", q, err))
+			panic(driverDied{q})
 		}
 		return strings.Split(strings.TrimRight(ln, "\n"), "\t")
 	}
 	defer func() { stdin.Close(); drv.Wait() }()
+	// a driver that dies (e.g. a panic in the init of a generated package: BuildFileDescriptor / registerGoTypes) is a
+	// failure of the property, reported with the unit being examined (all units share the process)
+	defer func() {
+		if x := recover(); x != nil {
+			dd, ok := x.(driverDied)
+			if !ok {
+				panic(x)
+			}
+			d := units[len(units)-1].doc
+			if cur != nil {
+				d = cur.doc
+			}
+			report(out, d, ofail{"driver-crash", "the program linked with the generated packages died on query " + clip(dd.q) + ": " + clip(stderrBuf.String()), "an answer", "process exit"},
+				"C15/compiled/driver-crash/"+d.Text())
+		}
+	}()
 
 	for _, u := range units {
 		if !include[u.idx] {
 			continue
 		}
 		out.Count("unit:linked")
+		cur = u
 		d := u.doc
 		if u.idx < 2 {
 			out.Sample(map[string]interface{}{"compiled_unit": u.idx, "idl": clip(d.Text())})
@@ -377,6 +402,57 @@ func compiled(repo, dir string, seed uint64, tier string) error {
 		}
 	}
 	return nil
+}
+
+type driverDied struct{ q string }
+
+// aimedDocs: fixed units of the compiled part.
+//  1. two files with the same base name in different directories, different go namespaces and different content
+//     (each generated package must embed the descriptor of ITS OWN file);
+//  2. definition names that are not their own Go names, incl. two names colliding after Go naming.
+func aimedDocs() []*Doc {
+	ty := func(n string) *DType { return &DType{Name: n} }
+	fld := func(id int32, t, n string) *DField { return &DField{ID: id, Name: n, Type: ty(t)} }
+	st := func(k byte, n string, fs ...*DField) *DStruct { return &DStruct{Kind: k, Name: n, Fields: fs} }
+	en := func(n string, vs ...string) *DEnum {
+		e := &DEnum{Name: n}
+		for i, v := range vs {
+			e.Values = append(e.Values, &DEnumValue{Name: v, Value: int64(i + 1), WriteValue: true})
+		}
+		return e
+	}
+	sameBase := &Doc{Files: []*DFile{
+		{Path: "main.thrift", Includes: []int{1, 2}, NS: []DNS{{"go", "mainpkg"}},
+			Structs: []*DStruct{st('s', "Uses", fld(1, "types.Money", "m"), fld(2, "mid.Wrap", "w"))}},
+		{Path: "common/types.thrift", NS: []DNS{{"go", "commonpkg"}, {"java", "com.common"}},
+			Structs: []*DStruct{st('s', "Money", fld(1, "i64", "cents"))}, Enums: []*DEnum{en("Cur", "USD")},
+			Consts: []*DConstDef{{Name: "scale", Type: ty("i32"), Value: &DConst{Kind: 'i', I: 100}}}},
+		{Path: "mid.thrift", Includes: []int{3}, NS: []DNS{{"go", "midpkg"}},
+			Structs: []*DStruct{st('s', "Wrap", fld(1, "types.Money", "m"))}},
+		{Path: "legacy/types.thrift", NS: []DNS{{"go", "legacypkg"}, {"py", "legacy"}},
+			Structs: []*DStruct{st('s', "Money", fld(1, "string", "amount"), fld(2, "string", "cur"))}, Enums: []*DEnum{en("Cur", "EUR", "GBP")},
+			Consts: []*DConstDef{{Name: "unit", Type: ty("string"), Value: &DConst{Kind: 's', S: "x", Quote: '"'}}}},
+	}}
+	names := &Doc{Files: []*DFile{
+		{Path: "main.thrift", NS: []DNS{{"go", "namespkg"}},
+			Enums: []*DEnum{en("color_kind", "RED", "green"), en("Shade", "DARK")},
+			Structs: []*DStruct{
+				st('s', "order_item", fld(1, "i32", "qty"), fld(2, "color_kind", "color")),
+				st('s', "shipment", fld(1, "string", "a")),
+				st('s', "Shipment", fld(1, "i64", "b"), fld(2, "shipment", "inner")),
+				st('s', "user_id", fld(1, "i64", "id")),
+				st('s', "item_", fld(1, "order_item", "it")),
+				st('s', "HTTPUrl", fld(1, "string", "u")),
+				st('u', "my_union", &DField{ID: 1, Name: "a", Req: 2, Type: ty("i32")}, &DField{ID: 2, Name: "b", Req: 2, Type: ty("order_item")}),
+				st('x', "my_error", fld(1, "string", "msg")),
+				st('x', "Other_error", fld(1, "string", "msg")),
+			},
+			Typedefs: []*DTypedef{{Alias: "item_alias", Type: ty("order_item")}, {Alias: "id_t", Type: ty("i64")}},
+			Services: []*DService{{Name: "order_service", Funcs: []*DFunc{{Name: "get_item", Ret: ty("order_item"),
+				Args:   []*DField{fld(1, "user_id", "u")},
+				Throws: []*DField{{ID: 1, Name: "e", Req: 2, HideReq: true, Type: ty("my_error")}}}}}}},
+	}}
+	return []*Doc{sameBase, names}
 }
 
 type ktype struct {
